@@ -17,6 +17,7 @@ from __future__ import annotations
 import ast
 from typing import Any, Dict, List, Optional, Tuple
 
+from sa.guards import facts_at
 from sa.model import (AnalysisError, FuncInfo, Program, ancestors, parent,
                       src, walk_local)
 from sa.peval import Const, Enum, PEval, show
@@ -539,6 +540,55 @@ def d7_documents_as_loaded(chk: Check) -> None:
         chk.ok("C18-D7", ld, loops[0], text, "set on every path")
 
 
+def d8_only_null_is_skipped(chk: Check) -> None:
+    """Each pairwise step of a multi-document merge is the ordinary merge.
+    merge_with() skips a right-hand document only when it is *null* (an
+    empty document holds nothing and has no kind).  An empty hash, list or
+    set is a document of a kind: it still replaces under a RIGHT policy,
+    creates a missing merge point, synchronises the tag and clashes with a
+    target of another kind."""
+    prog = chk.prog
+    chk.rule("C18-D8", "merge_with returns without merging only for a null "
+             "right-hand document (or, for an empty left document, after it "
+             "has adopted a right-hand container)", floor=2)
+    fi = prog.func("Merger.merge_with")
+    rhs = fi.params()[1]
+    n = 0
+    for r in walk_local(fi.node):
+        if not (isinstance(r, ast.Return) and r.value is None):
+            continue
+        n += 1
+        # the tests of the enclosing `if`s (facts about self.data are
+        # killed by the assignment that adopts the right-hand document)
+        texts = []
+        child: ast.AST = r
+        for a in ancestors(r):
+            if isinstance(a, ast.If):
+                pol = any(child is x for x in a.body)
+                texts.append(("" if pol else "not ") +
+                             src(a.test).replace(" ", ""))
+            if a is fi.node:
+                break
+            child = a
+        texts = sorted(texts)
+        text = "merge_with: bare return under {}".format(texts)
+        null_only = texts == ["{}isNone".format(rhs)]
+        adopted = len(texts) == 2 and "self.dataisNone" in texts and any(
+            t.startswith("isinstance({},".format(rhs)) for t in texts)
+        if null_only or adopted:
+            chk.ok("C18-D8", fi, r, text, "null right-hand document"
+                   if null_only else "empty left document adopted the "
+                   "right-hand container")
+        else:
+            chk.fail("C18-D8", fi, r, text,
+                     "the pairwise step is skipped for a right-hand document "
+                     "that is not null (an empty container): replacing "
+                     "policies, merge-point creation, tag synchronisation "
+                     "and kind clashes no longer apply to it")
+    if n < 2:
+        raise AnalysisError("early returns of merge_with not found")
+
+
 def run(chk: Check) -> None:
     d1_routing(chk)
     d2_condense(chk)
@@ -548,6 +598,7 @@ def run(chk: Check) -> None:
     d3_states(chk)
     d6_lone_stream(chk)
     d7_documents_as_loaded(chk)
+    d8_only_null_is_skipped(chk)
     # a Merger folds many right-hand documents into one left document:
     # conflict detection must look at the accumulated document each time
     from rules.c10 import d4_fresh_tables
